@@ -1,0 +1,14 @@
+//go:build verif
+
+package tss
+
+// SimYield, when set, is called by every party right before it acquires and right after it releases
+// its mutex. It exists for deterministic-simulation tests only (build tag `verif`), which use it to
+// decide the order in which concurrent callers enter the party's critical section.
+var SimYield func(p *BaseParty, point string)
+
+func simYield(p *BaseParty, point string) {
+	if f := SimYield; f != nil {
+		f(p, point)
+	}
+}
